@@ -110,6 +110,11 @@ fn check_single(c: &Content) -> Result<Vec<u64>, String> {
 
 /// Pair laws.
 fn check_pair(a: &Content, b: &Content, ia: &[u64], ib: &[u64]) -> Result<(u32, bool), String> {
+    // a panic escaping from the library through any call below is a violation of this case, not a crash
+    guard_case(|| check_pair_unguarded(a, b, ia, ib))
+}
+
+fn check_pair_unguarded(a: &Content, b: &Content, ia: &[u64], ib: &[u64]) -> Result<(u32, bool), String> {
     let la = LongFuzzyHash::new_from_internals_near_raw(a.0, &a.1, &a.2);
     let lb = LongFuzzyHash::new_from_internals_near_raw(b.0, &b.1, &b.2);
     let sab = guarded(|| la.compare(&lb))?;
